@@ -36,9 +36,36 @@ harmonic {
 """
 
 
+# a second configuration for the damaged-state search: biases whose state holds grids (histogram; metadynamics with grids)
+CONFIG_GRID = """colvar {
+  name d
+  lowerBoundary 0.0
+  upperBoundary 4.0
+  width 1.0
+  distanceZ {
+    main { atomNumbers 1 }
+    ref { dummyAtom (0,0,0) }
+    axis (0,0,1)
+  }
+}
+histogram {
+  name hi
+  colvars d
+}
+metadynamics {
+  name m
+  colvars d
+  hillWeight 0.1
+  newHillFrequency 1
+  hillWidth 1.0
+}
+"""
+CONFIGS = {"base": CONFIG, "grid": CONFIG_GRID}
+
+
 def scenario(sess, name=NAME, distinct=False):
     """sess = {"first": step number to start from, "pre": steps before the first save, "saves": ["text"|"binary", ...]}"""
-    L = ["unbuffered", "natoms 2", "new", "config EOF"] + CONFIG.strip("\n").split("\n") + ["EOF",
+    L = ["unbuffered", "natoms 2", "new", "config EOF"] + CONFIGS[sess.get("config", "base")].strip("\n").split("\n") + ["EOF",
          "show cv 0 atomf 0 energy 0 bias 0", "setstep %d" % sess["first"], "pos 1 0 0 1.25"]
     L += ["step"] * sess["pre"]
     for i, mode in enumerate(sess["saves"]):
@@ -47,8 +74,8 @@ def scenario(sess, name=NAME, distinct=False):
     return "\n".join(L) + "\n"
 
 
-def load_scenario(prefix):
-    L = ["natoms 2", "new", "config EOF"] + CONFIG.strip("\n").split("\n") + ["EOF", "load %s" % prefix]
+def load_scenario(prefix, config="base"):
+    L = ["natoms 2", "new", "config EOF"] + CONFIGS[config].strip("\n").split("\n") + ["EOF", "load %s" % prefix]
     return "\n".join(L) + "\n"
 
 
@@ -299,9 +326,9 @@ def complete_versions(files, refs_by_ver):
     return out
 
 
-def try_load_(vsim, d, fname):
+def try_load_(vsim, d, fname, config="base"):
     scn = os.path.join(d.path, "l.scn")
-    open(scn, "w").write(load_scenario(fname))
+    open(scn, "w").write(load_scenario(fname, config))
     rc, out, err = V.sh(["timeout", "-s", "KILL", "20", vsim, scn], cwd=d.path, timeout=60,
                         env={"ASAN_OPTIONS": "abort_on_error=1:detect_leaks=0", "UBSAN_OPTIONS": "halt_on_error=1:abort_on_error=1"})
     os.remove(scn)
@@ -624,6 +651,8 @@ def run_crash(run, model, vsim, quick):
         except Exception as ex:
             run.notes.append("asan build failed, load search used the plain build: %s" % str(ex)[-200:])
     run_damage(run, load_exe, d, quick, model)
+    if model is not None:
+        run_damage_grid(run, load_exe, d, quick, model)
 
 
 # ---------------------------------------------------------------------------------------------------
@@ -658,17 +687,24 @@ def top_level_blocks(text):
 KEYWORDS = {"configuration": 0, "colvar": 1, "name": 2, "hill": 3, "x": 4}
 
 
-def tx_line(text):
-    """the case line for the text-reader model (coq/C11/StateReadModel.v): the configured objects of CONFIG and the
-    white-space separated words of the (damaged) file; words are numbered, the reader's own keywords have fixed numbers"""
+def tx_line(text, config="base"):
+    """the case line for the text-reader model (coq/C11/StateReadModel.v): the configured objects of the configuration and
+    the white-space separated words of the (damaged) file; words are numbered, the reader's own keywords have fixed numbers"""
     ids = dict(KEYWORDS)
 
     def wid(w):
         if w not in ids:
             ids[w] = 100 + len(ids)
         return ids[w]
-    cfg = "cv:%d b:%d.%d.%d.0,%d.%d.%d.1" % (wid("d"), wid("restraint"), wid("harmonic"), wid("h"),
-                                               wid("metadynamics"), wid("metadynamics"), wid("m"))
+    if config == "base":
+        cfg = "cv:%d b:%d.%d.%d.0,%d.%d.%d.1" % (wid("d"), wid("restraint"), wid("harmonic"), wid("h"),
+                                                   wid("metadynamics"), wid("metadynamics"), wid("m"))
+    else:
+        # 4 bins: histogram = key "grid" + 4 numbers; metadynamics = two grids (key, grid_parameters block, 4 numbers), then hills
+        gp = wid("grid_parameters")
+        cfg = "cv:%d b:%d.%d.%d.0.k%d+w4,%d.%d.%d.1.k%d+b%d+w4+k%d+b%d+w4" % (
+            wid("d"), wid("histogram"), wid("histogram"), wid("hi"), wid("grid"),
+            wid("metadynamics"), wid("metadynamics"), wid("m"), wid("hills_energy"), gp, wid("hills_energy_gradients"), gp)
     toks = [w if w in ("{", "}") else str(wid(w)) for w in text.split()]
     return "TX %s t:%s" % (cfg, ",".join(toks) or "-")
 
@@ -678,6 +714,59 @@ def tb_line(data):
     module's lists (variable d; harmonic h before metadynamics m) and the bytes of the (damaged) file"""
     hx = lambda t: t.encode().hex()
     return "TB n:1 b:%s.%s.0.1,%s.%s.1.1 d:%s" % (hx("restraint"), hx("harmonic"), hx("metadynamics"), hx("metadynamics"), data.hex())
+
+
+def run_damage_grid(run, vsim, d, quick, model):
+    """prefixes of a text state whose biases hold grids (histogram; metadynamics with grids): cut inside an object's
+    block must be an error (oracle), and the text-reader model with the grid layouts gives the same verdict (tie)"""
+    r = V.rng("C11damagegrid")
+    sess = {"first": 0, "pre": 6, "saves": ["text"], "config": "grid"}
+    refs, chunking, rel = reference(vsim, d, sess)
+    text = refs[0]
+    n = len(text)
+    p = os.path.join(d.path, "dmg.colvars.state")
+    blocks = top_level_blocks(text.decode("latin1"))
+    obj_blocks = [(a, b, kw) for a, b, kw in blocks if kw != "configuration"]
+    open(p, "wb").write(text)
+    rc, ld = try_load_(vsim, d, "dmg.colvars.state", "grid")
+    if rc != 0 or not ld or ld[0] != "ok":
+        run.violation("load.valid-state-rejected", "a freshly written text state with grids does not load (rc=%d, %s)" % (rc, ld),
+                      {"kind": "load", "format": "text", "config": "grid", "cut": n})
+        return
+    if quick:
+        offs = set(r.sample(range(n), min(n, 90)))
+        for a, b, kw in obj_blocks:
+            offs |= {a, a + 1, b - 1, b, b + 1, (a + b) // 2}
+        for m in re.finditer(rb"grid_parameters|hills_energy|\ngrid\n|\}\n [-0-9]", text):
+            offs |= {m.start(), m.start() + 3, m.end(), m.end() + 1, m.end() + 9}
+    else:
+        offs = set(range(n))
+    verdicts = []
+    for cut in sorted(o for o in offs if 0 <= o < n):
+        open(p, "wb").write(text[:cut])
+        rc, ld = try_load_(vsim, d, "dmg.colvars.state", "grid")
+        run.count("gridtext-prefix-%d" % cut, True)
+        run.dist("damage:text-prefix(grids)")
+        if rc >= 128 or rc == 124 or rc < 0 or ld is None:
+            run.violation("load.crash:text-prefix", "loading the first %d of %d bytes of a valid text state with grids kills or hangs the process (rc=%d)" % (cut, n, rc),
+                          {"kind": "load", "format": "text", "config": "grid", "cut": cut})
+            continue
+        verdicts.append((cut, "ok" if ld[0] == "ok" else "err"))
+        inside = [kw for a, b, kw in obj_blocks if a < cut <= b]
+        if inside and ld[0] == "ok":
+            run.violation("load.text-cut-inside-%s-block-accepted" % inside[0],
+                          "a text state with grids cut at byte %d, inside the %s block, loads without any error" % (cut, inside[0]),
+                          {"kind": "load", "format": "text", "config": "grid", "cut": cut})
+    lines = [tx_line(text[:cut].decode("latin1"), "grid") for cut, _ in verdicts]
+    rcm, mout, em = V.run_lines(model, lines, timeout=600)
+    ndis = 0
+    for (cut, verdict), mo in zip(verdicts, mout + ["<none>"] * (len(lines) - len(mout))):
+        if mo.strip() != verdict:
+            ndis += 1
+            run.mismatch("text-reader-tie", {"config": "grid", "cut": cut, "of": n, "tail": text[max(0, cut - 30):cut].decode("latin1")}, verdict, mo.strip())
+    run.cov["correspondence"]["damage_grid"] = {"text_prefixes": len(verdicts), "text_reader_model_disagreements": ndis}
+    if os.path.exists(p):
+        os.remove(p)
 
 
 def run_damage(run, vsim, d, quick, model=None):
@@ -830,7 +919,8 @@ def replay(rp, vsim, model):
         shutil.copy(os.path.join(d.path, NAME + ".old"), os.path.join(d.path, "backup_copy.colvars.state"))
         print("load a copy named backup_copy.colvars.state:", try_load_(vsim, d, "backup_copy.colvars.state"))
     else:
-        sess = {"first": 0, "pre": 6, "saves": ["text", "binary"]}
+        cfgname = rp.get("config", "base")
+        sess = {"first": 0, "pre": 6, "saves": ["text", "binary"]} if cfgname == "base" else {"first": 0, "pre": 6, "saves": ["text"], "config": cfgname}
         refs, chunking, rel = reference(vsim, d, sess)
         data = refs[0] if rp["format"] == "text" else refs[1]
         if "cut" in rp:
@@ -838,4 +928,4 @@ def replay(rp, vsim, model):
         if "flip" in rp:
             dd = bytearray(data); dd[rp["flip"][0]] ^= (1 << rp["flip"][1]); data = bytes(dd)
         open(os.path.join(d.path, "dmg.colvars.state"), "wb").write(data)
-        print("load:", try_load(vsim, d, "dmg.colvars.state"), "file:", os.path.join(d.path, "dmg.colvars.state"))
+        print("load:", try_load_(vsim, d, "dmg.colvars.state", cfgname), "file:", os.path.join(d.path, "dmg.colvars.state"))
